@@ -546,6 +546,7 @@ func builtinInPackage(env *LEnv, args *LVal) *LVal {
 		env.Runtime.Registry.DefinePackage(name)
 		pkg = env.Runtime.Registry.packages[name]
 	}
+	prev := env.Runtime.Package
 	env.Runtime.Package = pkg
 	if newpkg && env.Runtime.Registry.Lang != "" {
 		// For now, all packages use the lisp package.  The ``in-package''
@@ -554,6 +555,14 @@ func builtinInPackage(env *LEnv, args *LVal) *LVal {
 		// remember).
 		lerr := env.UsePackage(Symbol(env.Runtime.Registry.Lang))
 		if lerr.Type == LError {
+			// The package could not be given the language's exports (the
+			// language package exports a name that is not bound).  Leaving
+			// it registered and current would strand the program in a
+			// package where nothing -- not even lambda or in-package --
+			// resolves, and a later in-package of the same name would find
+			// it "existing" and never import the language into it.
+			delete(env.Runtime.Registry.packages, name)
+			env.Runtime.Package = prev
 			return lerr
 		}
 	}
